@@ -164,3 +164,32 @@ package set
 //@   ensures {C16} moved: len(params.Command) == 4 && onset(params, tsrc(params)) && onset(params, tdst(params)) && old(has(tmembers(params, tsrc(params)), params.Command[3])) ==> result1 == nil && bstr(result0) == ":" ++ (itoa(1) ++ "\r\n") && has(tmembers(params, tdst(params)), old(params.Command[3])) && (old(asset(tval(params, tsrc(params))) != asset(tval(params, tdst(params)))) ==> !has(tmembers(params, tsrc(params)), old(params.Command[3])))
 //@   ensures {C16} rest: len(params.Command) == 4 && onset(params, tsrc(params)) && onset(params, tdst(params)) ==> (forall x string :: x != old(params.Command[3]) ==> (has(tmembers(params, tsrc(params)), x) <==> old(has(tmembers(params, tsrc(params)), x))) && (has(tmembers(params, tdst(params)), x) <==> old(has(tmembers(params, tdst(params)), x))))
 //@   ensures {C16,C20} keys: tpure(params)
+
+// ---- set algebra: results are new sets, operands are left as they were --------------------------
+// setsok: the operands are well-formed sets.
+//@ spec setsok(sets []*Set) bool = forall i int :: 0 <= i && i < len(sets) ==> sets[i] != nil && inv(sets[i], alloc) && inv(sets[i], nonnil) && inv(sets[i], len)
+
+//@ func Union props C16,C13
+//@   requires len(sets) >= 1 && setsok(sets)
+//@   ensures {C16,C13} isfresh: fresh(result) && fresh(result.members)
+//@   ensures wf: inv(result, alloc) && inv(result, nonnil) && inv(result, len)
+//@   ensures {C16} members: forall x string :: has(result.members, x) <==> (exists i int :: 0 <= i && i < len(sets) && has(sets[i].members, x))
+//@   modifies nothing
+
+// Intersection(limit, sets...): every member of the result is in every operand; when the limit was not reached the result is
+// the whole intersection.
+//@ func Intersection props C16,C13
+//@   requires len(sets) >= 1 && setsok(sets)
+//@   ensures {C16,C13} isfresh: fresh(result0) && fresh(result0.members)
+//@   ensures wf: inv(result0, alloc) && inv(result0, nonnil) && inv(result0, len)
+//@   ensures {C16} subset: forall x string :: has(result0.members, x) ==> (forall i int :: 0 <= i && i < len(sets) ==> has(sets[i].members, x))
+//@   ensures {C16} whole: !result1 ==> (forall x string :: (forall i int :: 0 <= i && i < len(sets) ==> has(sets[i].members, x)) ==> has(result0.members, x))
+//@   ensures {C16} limited: result1 ==> limit > 0 && len(result0.members) >= limit
+//@   modifies nothing
+//@   loop 0
+//@     invariant fresh(intersection) && fresh(intersection.members) && inv(intersection, alloc) && inv(intersection, nonnil) && inv(intersection, len) && setsok(sets) && len(sets) == 2 && !limitReached
+//@     invariant forall x string :: has(intersection.members, x) ==> has(sets[0].members, x) && has(sets[1].members, x)
+//@     invariant forall k int :: 0 <= k && k <= rangeindex && has(sets[1].members, rangeslice[k]) ==> has(intersection.members, rangeslice[k])
+//@     invariant forall k int :: 0 <= k && k < len(rangeslice) ==> has(sets[0].members, rangeslice[k])
+//@     invariant forall x string :: has(sets[0].members, x) ==> (exists k int :: 0 <= k && k < len(rangeslice) && rangeslice[k] == x)
+//@     invariant -1 <= rangeindex && rangeindex < len(rangeslice) && allocated(rangeslice) && allocated(intersection) && allocated(intersection.members)
